@@ -129,6 +129,9 @@ def run(ctx):
             except Exception as ex:
                 res.violation(case, "SSCChart.from_str(str(chart)) raised", impl=core.exc_name(ex)); break
         reqs2.append({"op": "obj.load_ssc", "params": rp}); metas2.append((case, exp))
+    # informational: the full text written by the Lean model (modelled MSDParameter.__str__) against str(simfile), byte for byte
+    texts = ctx.lean.eval_sharded([{"op": "obj.text_ssc", "sf": d} for (_, _, _, d) in metas])
+    res.stats["model_text_equals_impl_text"] = {"compared": len(texts), "different": sum(1 for (sf, _, _, _), t in zip(metas, texts) if _safe_str(sf) != t)}
     resp2 = ctx.lean.eval_sharded(reqs2)
     for (case, exp), m in zip(metas2, resp2):
         if m.get("ok") != exp:
@@ -143,3 +146,10 @@ def run(ctx):
 
 def _as(d):
     return {"props": d["props"], "charts": d["charts"]}
+
+
+def _safe_str(sf):
+    try:
+        return str(sf)
+    except Exception:
+        return None
